@@ -26,4 +26,5 @@ void bvp_print_hex(const unsigned char *p, size_t n);      /* prints "-" when n=
 
 /* op tables, one per file */
 extern struct op_entry ops_bits[];
+void bits_reset(void);
 #endif
